@@ -332,6 +332,89 @@ func c01Scenarios(tier string) []*core.Scenario {
 			}
 			return insnCase(mode, "RET", x86ref.Want{Op: "RET", Fixed: true}, feat("form", "noparam", "mn", "RET"), nil)
 		}})
+	// a label written as the memory address: [lab] with and without size keyword, in every form that takes memory
+	labForms := []struct {
+		name string
+		text func(w int, kw string) string
+		want func(w int, m x86ref.WantOp) x86ref.Want
+	}{
+		{"store_imm", func(w int, kw string) string { return "MOV " + kw + "[lab],0x5a" }, func(w int, m x86ref.WantOp) x86ref.Want {
+			return x86ref.Want{Op: "MOV", OpSize: w, Ops: []x86ref.WantOp{m, wimm(0x5a, w)}}
+		}},
+		{"add_imm", func(w int, kw string) string { return "ADD " + kw + "[lab],1" }, func(w int, m x86ref.WantOp) x86ref.Want {
+			return x86ref.Want{Op: "ADD", OpSize: w, Ops: []x86ref.WantOp{m, wimm(1, w)}}
+		}},
+		{"cmp_imm", func(w int, kw string) string { return "CMP " + kw + "[lab],0x80" }, func(w int, m x86ref.WantOp) x86ref.Want {
+			return x86ref.Want{Op: "CMP", OpSize: w, Ops: []x86ref.WantOp{m, wimm(0x80, w)}}
+		}},
+		{"not", func(w int, kw string) string { return "NOT " + kw + "[lab]" }, func(w int, m x86ref.WantOp) x86ref.Want {
+			return x86ref.Want{Op: "NOT", OpSize: w, Ops: []x86ref.WantOp{m}}
+		}},
+		{"shl", func(w int, kw string) string { return "SHL " + kw + "[lab],1" }, func(w int, m x86ref.WantOp) x86ref.Want {
+			return x86ref.Want{Op: "SHL", OpSize: w, Ops: []x86ref.WantOp{m, wimm(1, 8)}}
+		}},
+		{"load", func(w int, kw string) string { return "MOV " + regsOf(w)[1] + "," + kw + "[lab]" }, func(w int, m x86ref.WantOp) x86ref.Want {
+			return x86ref.Want{Op: "MOV", OpSize: w, Ops: []x86ref.WantOp{wreg(regsOf(w)[1]), m}}
+		}},
+		{"load_acc", func(w int, kw string) string { return "MOV " + regsOf(w)[0] + "," + kw + "[lab]" }, func(w int, m x86ref.WantOp) x86ref.Want {
+			return x86ref.Want{Op: "MOV", OpSize: w, Ops: []x86ref.WantOp{wreg(regsOf(w)[0]), m}}
+		}},
+		{"store", func(w int, kw string) string { return "MOV " + kw + "[lab]," + regsOf(w)[3] }, func(w int, m x86ref.WantOp) x86ref.Want {
+			return x86ref.Want{Op: "MOV", OpSize: w, Ops: []x86ref.WantOp{m, wreg(regsOf(w)[3])}}
+		}},
+		{"sub_reg", func(w int, kw string) string { return "SUB " + regsOf(w)[2] + "," + kw + "[lab]" }, func(w int, m x86ref.WantOp) x86ref.Want {
+			return x86ref.Want{Op: "SUB", OpSize: w, Ops: []x86ref.WantOp{wreg(regsOf(w)[2]), m}}
+		}},
+	}
+	labOrgs := []int64{0, 0x7c00}
+	scs = append(scs, &core.Scenario{Name: "mem_label", Bound: -1,
+		Rule:   "a label as memory address ([lab], label defined right behind the statement, its address computed from the emitted length) x 9 instruction forms x BYTE/WORD/DWORD x size keyword present/absent (absent only where a register fixes the size) x ORG {0, 0x7c00} x BITS",
+		Bounds: map[string]any{"forms": len(labForms), "orgs": labOrgs},
+		Build: func(c *core.Chooser) *core.Case {
+			mode := pickMode(c)
+			f := labForms[c.Pick("form", len(labForms))]
+			w := widths[c.Pick("w", 3)]
+			withKw := c.Bool("sizekw")
+			org := labOrgs[c.Pick("org", len(labOrgs))]
+			hasReg := f.name == "load" || f.name == "load_acc" || f.name == "store" || f.name == "sub_reg"
+			if !withKw && !hasReg {
+				return nil // the operand size would be unspecified
+			}
+			kw := ""
+			if withKw {
+				kw = sizeKw(w) + " "
+			}
+			stmt := f.text(w, kw)
+			head := bitsHeader(mode) + fmt.Sprintf("\tORG 0x%x\n", org)
+			src := head + "\t" + stmt + "\nlab:\n\tDB 0x5a\n"
+			base := head + "lab:\n\tDB 0x5a\n"
+			ft := feat("form", "m_label", "mn", f.name, "w", fmt.Sprint(w), "sizekw", fmt.Sprint(withKw), "org", fmt.Sprintf("0x%x", org))
+			ft["mode"] = fmt.Sprint(mode)
+			return &core.Case{Key: fmt.Sprintf("BITS %d|ORG 0x%x|%s ; lab:", mode, org, stmt), Feat: ft, Srcs: []string{src, base},
+				Judge: func(rs []*core.Result) core.Verdict {
+					r, b := rs[0], rs[1]
+					v := core.Verdict{}
+					if core.ReportsError(r, b) {
+						v.Outcome = "diagnosed"
+						return v
+					}
+					if len(r.Out) < 2 || r.Out[len(r.Out)-1] != 0x5a {
+						v.Outcome = "mismatch"
+						v.Fails = append(v.Fails, core.Fail{Facet: "dropped_silently", Dev: "no_bytes", Detail: fmt.Sprintf("output % X", r.Out)})
+						return v
+					}
+					out := r.Out[:len(r.Out)-1]
+					addr := org + int64(len(out))
+					m := x86ref.WantOp{Kind: "mem", Size: w, Mem: x86ref.MemSpec{Disp: addr, AddrSize: mode, Abs: true}}
+					diffs, _ := x86ref.Compare(out, mode, f.want(w, m))
+					v.Outcome, v.Nontrivial, v.NTKey = "ok", true, fmt.Sprintf("%d:%x", mode, out)
+					for _, d := range diffs {
+						v.Fails = append(v.Fails, core.Fail{Facet: d.Facet, Dev: d.Dev, Detail: d.Info})
+						v.Outcome = "mismatch"
+					}
+					return v
+				}}
+		}})
 	ctx := c02Context()
 	ctx.Name = "reg_mem_behind_same_shape"
 	scs = append(scs, ctx)
